@@ -1,5 +1,6 @@
 // C10 harness: the real Spectra::BKLDLT (and DenseSymShiftSolve / SymShiftInvert built on it)
-//   (a) correspondence with the Lean model (Model/BKLDLT.lean + Gen.BK): packed array after compute, m_perm, info, solve(b) -- bit exact;
+//   (a) correspondence with the Lean models (Model/BKLDLT.lean real double/float, Model/BKLDLTC.lean complex<double>, + Gen.BK):
+//       packed array after compute, m_perm, info, solve(b) -- bit exact, in one of Lower/Upper x ColMajor/RowMajor x (unused triangle NaN);
 //       the translated kernels solve_inplace_2x2 / inverse_inplace_2x2 / compress_permutation / wrapper guards separately;
 //   (b) the property's own predicates on the implementation (double, float, complex<double>), evaluated in long double:
 //       residual  ||(A - sI)x - b||_2 <= C_RES n eps (||A - sI||_F ||x||_2 + ||b||_2)   for every run reported Successful,
@@ -235,7 +236,8 @@ static void one_case(const Case& c, uint64_t seed, const std::string& tier, Out&
     oracle<double>(c, seed, tier, out, &kept, cfg, garb);
     Result<float> keptf;
     oracle<float>(c, seed, tier, out, &keptf, cfg, garb);
-    oracle<CD>(c, seed, tier, out);
+    Result<CD> keptc;
+    oracle<CD>(c, seed, tier, out, &keptc, cfg, garb);
     {   Case cr = c; std::fill(cr.im.begin(), cr.im.end(), 0.0); if (c.kind % 3 == 0) oracle<CD>(cr, seed, tier, out); }   // complex type, real data
     out.count(std::string("kind_") + KN[c.kind]); out.count("n_" + str(c.n < 7 ? c.n : c.n <= 20 ? 20 : 80) + (c.n < 7 ? "" : "_or_less"));
     // branch tags from m_perm
@@ -269,6 +271,21 @@ static void one_case(const Case& c, uint64_t seed, const std::string& tier, Out&
         a += " D"; for (float v : keptf.data) a += " " + fb32(v);
         a += " X"; if (keptf.info == 0) for (float v : keptf.x) a += " " + fb32(v); else a += " -";
         out.corr(q, a); }
+    {   // complex Hermitian: Model/BKLDLTC.lean at Float (std::complex<double> as re im pairs), same configuration
+        auto fc = [](CD z) { return fb(z.real()) + " " + fb(z.imag()); };
+        std::string q = "bkldltc " + str(c.n) + " " + str((cfg & 1) ? 2 : 1) + " " + str((cfg & 2) ? 1 : 0) + " " + str(dbits(alpha)) + " " + str(dbits(c.shift));
+        for (CD v : keptc.mem) q += " " + str(dbits(v.real())) + " " + str(dbits(v.imag()));
+        for (int i = 0; i < c.n; i++) q += " " + str(dbits(c.b[i])) + " " + str(dbits(c.bim[i]));
+        std::string a = str(keptc.info) + " 1 P";
+        for (long p : keptc.perm) a += " " + str(p);
+        a += " D"; for (CD v : keptc.data) a += " " + fc(v);
+        a += " X"; if (keptc.info == 0) for (CD v : keptc.x) a += " " + fc(v); else a += " -";
+        out.corr(q, a); out.count("corr_complex");
+        for (long i = 0; i < c.n;) {
+            long p = keptc.perm[i];
+            if (p >= 0) { out.count(p == i ? "cplx_pivot_1x1_nointerchange" : "cplx_pivot_1x1_interchange"); i++; }
+            else { long rr = -keptc.perm[i + 1] - 1; out.count(rr == i + 1 ? "cplx_pivot_2x2_nointerchange" : "cplx_pivot_2x2_interchange"); i += 2; }
+        } }
     {   auto pc = SpectraVerifAccess::permc_from(kept.perm); std::string q = "permc " + str(c.n), a;
         for (long p : kept.perm) q += " " + str(p);
         for (auto& ab : pc) a += (a.empty() ? "" : " ") + str(ab.first) + ":" + str(ab.second);
